@@ -87,3 +87,22 @@ NOT_APPLICABLE = {
     "C17": "all-or-nothing is a frame condition over ten async collections; no synchronous kernel states any clause (DESIGN §3 C17)",
     # planned, not yet built in this commit (moved to CLAIMED when their check passes)
 }
+
+
+# ---- as built later: units in the async form (DESIGN §2.2 form 4) and after the seeded changes ----
+_ADD = {
+    "C01": " ALSO (async form: whole async fns copied verbatim, awaits kept, stand-in futures stamping a ghost clock): the checkpoint protocol of flush_inner — the intent log is retired last and only after every durable write of the flush returned Ok, indexes are persisted before the metadata that registers them, the storage checkpoint advances only after metadata and the ids bitmap, to the value the metadata write reported; and the two writers of the metadata object (store_metadata, store_metadata_unclaimed): every metadata object written carries the LIVE allocator value, the reported checkpoint is the persisted allocator, the flush version is claimed only after a successful PUT and never by the unclaimed writer. What each of those writes contains, and recovery from each prefix, stay out of reach.",
+    "C03": " ALSO: filter_by_field (the step restricting a search's relevance-ordered candidates to the match set) verbatim in a view struct against an evaluator stand-in that may stop early when handed a limit: exactly the matching candidates, in relevance order (bounded: 3 documents).",
+    "C06": " ALSO (async form): drop_data's kernel (prefix removal only after the exclusive gate and only while Deleting; Deleted only after a successful removal), the retiring-handle block of open_collection_with_schema (a replaced generation is drained — the drain future really awaited — or closed, and leaves the registry, before a fresh one is loaded), and the four mutating entry points add / update / remove / flush with mutation_lease, cancel_guard and the real CancelGuard Drop, POLLED k TIMES AND DROPPED: the body runs only on a handle that is writable after the gate was granted (a call queued behind a transition is rejected), a drop between the first effect and completion poisons the handle, a drop before the first effect changes nothing, a failed checkpoint poisons (bounded: lifecycle bytes 0..=6 for the raced family). The operation bodies themselves and every interleaving stay out of reach.",
+    "C07": " ALSO: every commit document (MetaStore put / copy / multipart complete; EncryptedStore put / copy / complete) carries the commit time minted for THAT commit — for a copy whatever time the source has — the committed size and the fresh generation, and is stamped before it is sealed.",
+    "C08": " ALSO (async form): the commit protocol every write goes through — SidecarStore::update_meta_with, delete_object, best_effort_delete whole, over every combination of backend outcomes: the commit point is PUT only after the payload it names is durable, Ok only for a committed switch, nothing deleted before the switch and never the committed payload or the commit point, only the replaced payload reclaimed, create never replaces a committed object (refused, or arbitrated by PutMode::Create), delete removes the commit point before the payload. Crash atomicity is thereby decided as the ORDER of one call's backend operations; interleavings are not explored.",
+    "C09": " ALSO (async form): SidecarStore::listing_entry whole — an entry a verifying wrapper's listing surfaces comes from a document its validator accepted, the cached one included; a refused document is never surfaced.",
+    "C19": " ALSO: the paging kernels of the HISTORY / CHANGES readers (async statement slices) under a relational contract — same page, same cursor decision, same cursor with hidden transactions interleaved as with them absent (bounded: 3 transactions); the ownership decision of resolve_at_depth (a suspended / revoked principal is not an owner); the gate tables are floors (asking for more never breaks C19).",
+    "C20": " ALSO: the override kernel of Policy::from_settings — a policy whose thresholds or modes differ from the named one does not carry its id (bounded).",
+}
+_ADD["C13"] = " ALSO (thin slice): Schema::allocated_idx_end and the statement of upgrade_with that picks the first index handed to a new field — never an index the schema lineage already allocated."
+for _k, _v in _ADD.items():
+    CLAIMED[_k]["text"] += _v
+CLAIMED["C01"]["note"] = "Scope: watermark / repair-window arithmetic, the checkpoint write order of flush_inner and the metadata writers."
+CLAIMED["C06"]["note"] = "Scope: sequential lifecycle state machine, drop/reopen kernels, and the cancel-guard wrappers of add/update/remove/flush under drop-at-poll-k."
+CLAIMED["C08"]["note"] = "Scope: the sweep decisions of collect_garbage, in-flight registration, and the backend-operation order of the commit protocol."
